@@ -1,6 +1,7 @@
 package main
 
 import (
+	"strings"
 	"fmt"
 	"math/big"
 )
@@ -89,6 +90,13 @@ func init() {
 			case *Term:
 				if p.kind == tSym {
 					fam = x.prog.prefixGlobals[p.Name]
+				}
+				// []byte("literal") as a prefix: declared as "prefix const:literal"
+				if p.kind == tUF && p.Op == "bytes_of_str" && len(p.Args) == 1 && p.Args[0].kind == tSym && strings.HasPrefix(p.Args[0].Name, "str:") {
+					var lit string
+					if _, err := fmt.Sscanf(p.Args[0].Name[4:], "%q", &lit); err == nil {
+						fam = x.prog.prefixGlobals["const:"+lit]
+					}
 				}
 			case *EncVal:
 			}
